@@ -2,7 +2,7 @@
 # Confirms a seeded change: applies on a scratch worktree, builds, runs the pinned tests with the patch.
 #   tools/verify_seeded.sh <patch.diff>
 set -u
-S=/tmp/mutrun
+S=${S:-/tmp/mutrun}
 mkdir -p $S
 if [ ! -d $S/repo ]; then git -C /repo worktree add --detach $S/repo HEAD -q; fi
 git -C $S/repo checkout -q --detach $(git -C /repo rev-parse HEAD) 2>/dev/null
